@@ -133,8 +133,8 @@ fn ref_for<G: Group>(o: &Opened<G>, challenges: &[Scalar]) -> RefVerdict<G> {
 
 /// The relation must hold at *Fiat-Shamir* challenges: each challenge is only one if every prover
 /// message that precedes it in the protocol was absorbed before it was drawn. Checked on the
-/// recorded transcript log: A before y; L_j, R_j before e_j; A1 and B before the final e; and
-/// every commitment before y. Returns the first message found missing.
+/// recorded transcript log: A before y; L_j, R_j before e_j; A1 and B before the final e.
+/// Returns the first message found missing.
 fn fiat_shamir_order(view: &TranscriptView, parts: &ProofParts, commitments: &[[u8; 32]]) -> Option<String> {
     let rounds = parts.lr.len();
     if view.challenges.len() != rounds + 3 {
@@ -146,11 +146,9 @@ fn fiat_shamir_order(view: &TranscriptView, parts: &ProofParts, commitments: &[[
     if !has(0, &parts.a) {
         return Some("A is not absorbed before y".into());
     }
-    for (j, c) in commitments.iter().enumerate() {
-        if !has(0, c) {
-            return Some(format!("commitment {} is not absorbed before y", j));
-        }
-    }
+    // (statement data such as the commitments may legitimately be absorbed in another form; their
+    // binding is decided by perturbation in C04, not by looking for their encodings here)
+    let _ = commitments;
     for (j, (l, r)) in parts.lr.iter().enumerate() {
         if !has(2 + j, l) {
             return Some(format!("L[{}] is not absorbed before its round challenge", j));
